@@ -104,3 +104,31 @@ pub fn check_i(x: &IBig, sign: Sign, m: &[Word]) -> bool {
     }
     sig_len(m) == 0 || s == sign
 }
+
+/// Structured word: a symbolic selector places a symbolic K-bit payload p as one of
+/// p, MAX - p, p << (W - K), 2^(W-1) + p  (all-ones / sparse / top-bit patterns, see DESIGN 1(c))
+pub fn sword(k: u32) -> Word {
+    let sel: u8 = nd::any();
+    let p: Word = nd::any();
+    let p = p & (((1 as Word) << k) - 1);
+    match sel & 3 {
+        0 => p,
+        1 => Word::MAX - p,
+        2 => p << (Word::BITS - k),
+        _ => ((1 as Word) << (Word::BITS - 1)) + p,
+    }
+}
+
+/// N structured words, top word non-zero
+pub fn smag<const N: usize>(k: u32) -> [Word; N] {
+    let mut a = [0 as Word; N];
+    let mut i = 0;
+    while i < N {
+        a[i] = sword(k);
+        i += 1;
+    }
+    if N > 0 {
+        nd::assume(a[N - 1] != 0);
+    }
+    a
+}
